@@ -8,7 +8,7 @@ from typing import Dict, List, Optional, Set, Tuple
 from ..astutil import call_name, calls_in, dotted, name_stores, unparse, walk_local, walk_stmts, returns_of
 from ..evalx import Evaluator, Sym, Unknown, has_unknown
 from ..index import ClassInfo, FuncInfo
-from ..report import Registry, sub
+from ..report import Registry, sub, chain
 
 R = Registry(
     "C02",
@@ -535,46 +535,112 @@ def r1(ctx):
     ctx.require(n_classes >= 60, f"only {n_classes} cacheable element classes with a visit method analysed")
 
 
+def _cache_sites(sc, cache_atoms):
+    """Uses of the compiled cache (the mapping whose atoms are `cache_atoms`) in the function of `sc` and in the
+    same-module helpers it calls: lookups [(scope, key expr, cfg node)] for `C.get(K)`, `C[K]`, `K in C`;
+    stores [(scope, key expr, cfg node, value expr)] for `C[K] = V`, `C.setdefault(K, V)`, `C.__setitem__(K, V)`.
+    The mapping is recognised by what it is (the parameter, a plain local alias of it, the helper parameter it was
+    passed as), not by its name."""
+    lookups, stores = [], []
+    for s in sc.with_helpers():
+        for n in s.local_walk():
+            at = s.node_of(n)
+            if at is None or not s.rd.reachable(at):
+                continue
+
+            def is_cache(x, at=at, s=s):
+                return s.param_atoms(x, at) == cache_atoms
+            if isinstance(n, ast.Call) and isinstance(n.func, ast.Attribute) and is_cache(n.func.value) and n.args:
+                if n.func.attr in ("get", "__getitem__", "setdefault", "pop"):
+                    lookups.append((s, n.args[0], at))
+                if n.func.attr in ("setdefault", "__setitem__") and len(n.args) >= 2:
+                    stores.append((s, n.args[0], at, n.args[1]))
+            elif isinstance(n, ast.Subscript) and is_cache(n.value):
+                if isinstance(n.ctx, ast.Load):
+                    lookups.append((s, n.slice, at))
+                elif isinstance(n.ctx, ast.Store):
+                    st = s.g.nodes[at].stmt
+                    stores.append((s, n.slice, at, getattr(st, "value", None)))
+            elif isinstance(n, ast.Compare) and len(n.ops) == 1 and isinstance(n.ops[0], (ast.In, ast.NotIn)) \
+                    and is_cache(n.comparators[0]):
+                lookups.append((s, n.left, at))
+    return lookups, stores
+
+
+def _same_value(s1, e1, at1, s2, e2, at2) -> bool:
+    """Do the two expressions denote the same value: the same definition(s) of a local reach both uses, or
+    they are structurally equal expressions over locals with identical reaching definitions."""
+    if s1 is not s2:
+        return s1.deps(e1, at1, must=True) == s2.deps(e2, at2, must=True) and bool(s1.deps(e1, at1, must=True))
+    o1, o2 = s1.origins(e1, at1), s1.origins(e2, at2)
+    if {(k, id(x)) for k, x, _ in o1} == {(k, id(x)) for k, x, _ in o2} and (isinstance(e1, ast.Name) or e1 is e2):
+        return True
+    if len(o1) == 1 and len(o2) == 1 and o1[0][0] == "expr" and o2[0][0] == "expr":
+        x1, n1 = o1[0][1], o1[0][2]
+        x2, n2 = o2[0][1], o2[0][2]
+        if ast.dump(x1) != ast.dump(x2):
+            return False
+        names = {n.id for n in ast.walk(x1) if isinstance(n, ast.Name)}
+        return all({d.id for d in s1.rd.at(n1, nm)} == {d.id for d in s1.rd.at(n2, nm)} for nm in names)
+    return False
+
+
 @R.rule("C02-R2", floor=5, template="T-FLOW",
         desc="_compile_w_cache: every argument forwarded to the compiler on a miss is part of the lookup key; the "
              "compiled object is stored under the key that was looked up")
 def r2(ctx):
+    from ._helpers_rob_c2 import Scope
     f = ctx.func("sql/elements.py::ClauseElement._compile_w_cache")
-    key_assign = None
-    for st in walk_stmts(f.node.body):
-        if isinstance(st, ast.Assign) and any(isinstance(t, ast.Name) and t.id == "key" for t in st.targets) and isinstance(st.value, ast.Tuple):
-            key_assign = st
-    ctx.require(key_assign is not None, "_compile_w_cache: `key = (...)` tuple not found")
-    key_names = {n.id for n in ast.walk(key_assign.value) if isinstance(n, ast.Name)}
-    comp_calls = [c for c in calls_in(f.node) if (call_name(c) or "").endswith("._compiler")]
+    ctx.require("compiled_cache" in f.params, "_compile_w_cache: no `compiled_cache` parameter")
+    sc = Scope(ctx, f)
+    # the key is whatever is subscripted into / looked up in / stored into the compiled cache (in the function
+    # itself or in a helper it hands the cache to), resolved through locals and key-building helpers
+    lookups, stores = _cache_sites(sc, frozenset({"param:compiled_cache"}))
+    ctx.require(lookups and stores, "_compile_w_cache: no lookup in / store into the compiled_cache mapping found "
+                                    "(compiled_cache.get(K) / compiled_cache[K] / compiled_cache[K] = V)")
+    key_must = [(s, k, at, s.deps(k, at, must=True)) for s, k, at in lookups] + \
+               [(s, k, at, s.deps(k, at, must=True)) for s, k, at, _ in stores]
+    key_may = [s.deps(k, at) for s, k, at in lookups] + [s.deps(k, at) for s, k, at, _ in stores]
+    # the compiler entry point, in the function or in a helper
+    comp_calls = []
+    for s in sc.with_helpers():
+        for n in s.local_walk():
+            if isinstance(n, ast.Call) and isinstance(n.func, ast.Attribute) and n.func.attr == "_compiler" \
+                    and s.node_of(n) is not None and s.is_self(n.func.value, s.node_of(n)):
+                comp_calls.append((s, n, s.node_of(n)))
     ctx.require(comp_calls, "_compile_w_cache: no self._compiler(...) call")
     # the uncached (key is None) path is allowed to differ; look at every call
     forwarded = set()
-    for c in comp_calls:
-        for a in list(c.args) + [k.value for k in c.keywords if k.arg]:
-            for n in ast.walk(a):
-                if isinstance(n, ast.Name) and n.id in f.params:
-                    forwarded.add(n.id)
+    for s, c, at in comp_calls:
+        if s.rd.reachable(at):
+            for a in list(c.args) + [k.value for k in c.keywords if k.arg]:
+                for atom in s.deps(a.value if isinstance(a, ast.Starred) else a, at):
+                    if atom.startswith("param:") and atom[6:] in f.params:
+                        forwarded.add(atom[6:])
+                    elif atom == "<self>":
+                        forwarded.add(f.params[0])
     exempt = {"self": "the statement is keyed through its cache key (elem_cache_key)", "kw": "linting flags: per-engine constants"}
+    loc = f"{f.module.path}:{getattr(lookups[0][1], 'lineno', f.node.lineno)}"
     for p in sorted(forwarded):
         if p in exempt:
             ctx.ok(f"{f.key}:{p}", "exempt: " + exempt[p], nontrivial=False)
             continue
-        ctx.check(p in key_names, f"{f.key}:{p}",
-                  f"argument `{p}` is forwarded to the compiler on a cache miss but is not part of the cache lookup "
-                  f"key: a compiled form built for one value would be served for another",
-                  "in key tuple", f"{f.module.path}:{key_assign.lineno}")
+        missing = [f"`{unparse(k)[:60]}` (line {getattr(k, 'lineno', '?')})" for s, k, at, d in key_must if "param:" + p not in d]
+        ctx.check(not missing, f"{f.key}:{p}",
+                  f"argument `{p}` is forwarded to the compiler on a cache miss but is not part of the cache "
+                  f"key {missing[:2]}: a compiled form built for one value would be served for another",
+                  "in every key the cache is read / written under", loc)
     # bool(schema_translate_map) / tuple(column_keys) forms are fine; the key must also contain the statement key
-    ctx.check(any(n in key_names for n in ("cache_key", "elem_cache_key")) or "key" in unparse(key_assign.value),
-              f"{f.key}:statement-key", "the statement's own cache key is not part of the lookup key", "statement key present", f.loc)
-    # get and set use the same `key`
-    gets = [c for c in calls_in(f.node) if (call_name(c) or "").endswith("compiled_cache.get")]
-    sets = [st for st in walk_stmts(f.node.body) if isinstance(st, ast.Assign) and any(
-        isinstance(t, ast.Subscript) and unparse(t.value) == "compiled_cache" for t in st.targets)]
-    ctx.require(gets and sets, "_compile_w_cache: compiled_cache.get / compiled_cache[...] = not found")
-    g_ok = all(c.args and unparse(c.args[0]) == "key" for c in gets)
-    s_ok = all(unparse(t.slice) == "key" for st in sets for t in st.targets if isinstance(t, ast.Subscript))
-    ctx.check(g_ok and s_ok, f"{f.key}:same-key", "compiled_cache is read and written under different keys", "get(key) / [key] =", f.loc)
+    ctx.check(all("call:self._generate_cache_key" in d for d in key_may),
+              f"{f.key}:statement-key", "the statement's own cache key (self._generate_cache_key()) is not part of the lookup key",
+              "statement key present", f.loc)
+    # the compiled form is stored under the key that was looked up
+    bad = []
+    for s, k, at, v in stores:
+        if not any(_same_value(s, k, at, s2, k2, at2) for s2, k2, at2 in lookups):
+            bad.append(f"`{unparse(k)[:60]}` (line {getattr(k, 'lineno', '?')})")
+    ctx.check(not bad, f"{f.key}:same-key", f"compiled_cache is written under a key {bad} that is not the key it was looked "
+                                           f"up with", f"{len(lookups)} lookup(s) / {len(stores)} store(s) under one key", f.loc)
 
 
 @R.rule("C02-R3", floor=50, template="T-EXHAUST",
@@ -608,33 +674,111 @@ def r3(ctx):
                   f"traversal symbol {sym} (used by {where}) has no comparison handler", "handler present", cmpc.loc, nontrivial=False)
 
 
+VALUE_ATTRS = ("effective_value", "value")
+EXTRACTED = "param:extracted_parameters"
+ORIG_BINDS = "self.cache_key"
+
+
+def _map_builders(s):
+    """Places where a mapping is built from a positional pairing zip(A, B):
+    [(cfg node, zip call, key expr, value expr, comprehension env | None)] for
+    `{K: V for a, b in zip(A, B) ...}`, `dict((K, V) for a, b in zip(A, B) ...)` and
+    `for a, b in zip(A, B): ... M[K] = V` / `M.setdefault(K, V)`."""
+    out = []
+    for n in s.local_walk():
+        at = s.node_of(n)
+        if isinstance(n, (ast.DictComp, ast.GeneratorExp, ast.ListComp)) and at is not None:
+            zips = [g_.iter for g_ in n.generators if isinstance(g_.iter, ast.Call) and (call_name(g_.iter) or "") == "zip"]
+            if not zips:
+                continue
+            if isinstance(n, ast.DictComp):
+                k, v = n.key, n.value
+            elif isinstance(n.elt, ast.Tuple) and len(n.elt.elts) == 2:
+                k, v = n.elt.elts
+            else:
+                continue
+            out.append((at, zips[0], k, v, s.comp_env(n, at)))
+        elif isinstance(n, ast.For) and isinstance(n.iter, ast.Call) and (call_name(n.iter) or "") == "zip":
+            for st in walk_stmts(n.body):
+                if isinstance(st, ast.Assign):
+                    for t in st.targets:
+                        if isinstance(t, ast.Subscript) and s.node_of(t) is not None:
+                            out.append((s.node_of(t), n.iter, t.slice, st.value, None))
+                elif isinstance(st, ast.Expr) and isinstance(st.value, ast.Call) and isinstance(st.value.func, ast.Attribute) \
+                        and st.value.func.attr in ("setdefault", "__setitem__") and len(st.value.args) == 2 \
+                        and s.node_of(st.value) is not None:
+                    out.append((s.node_of(st.value), n.iter, st.value.args[0], st.value.args[1], None))
+    return out
+
+
 @R.rule("C02-R4", floor=3, template="T-FLOW",
         desc="construct_params reads parameter values from the executing statement's extracted parameters")
 def r4(ctx):
+    from ._helpers_rob_c2 import Scope
     f = ctx.func(f"{CMP}::SQLCompiler.construct_params")
-    # value_param is bound from resolved_extracted.get(bindparam, bindparam) under `if resolved_extracted`
-    vp = [(n, v, st) for n, v, st in name_stores(f.node) if n == "value_param" and v is not None]
-    ctx.require(vp, "construct_params: no `value_param` binding")
-    ok_src = any("resolved_extracted" in unparse(v) for n, v, st in vp)
-    ctx.check(ok_src, f"{f.key}:value_param", "value_param is not taken from resolved_extracted", "resolved_extracted.get(bindparam, bindparam)", f.loc)
-    # every `.effective_value` / `.value` read whose result is stored in the output is on value_param
-    bad = []
-    n_reads = 0
-    for n in walk_local(f.node):
-        if isinstance(n, ast.Attribute) and n.attr in ("effective_value", "value") and isinstance(n.value, ast.Name):
-            n_reads += 1
-            if n.value.id not in ("value_param",):
-                bad.append(f"{n.value.id}.{n.attr} (line {n.lineno})")
-    ctx.require(n_reads >= 2, "construct_params: no .effective_value reads found")
+    ctx.require("extracted_parameters" in f.params, "construct_params: no `extracted_parameters` parameter")
+    sc = Scope(ctx, f)
+    scopes = sc.with_helpers()
+    # every `.value` / `.effective_value` read (in the function, or in a helper it calls with the binds): the object
+    # read is looked up in a mapping computed from the executing statement's extracted_parameters
+    reads = []
+    for s in scopes:
+        for n in s.local_walk():
+            if isinstance(n, ast.Attribute) and n.attr in VALUE_ATTRS and isinstance(n.ctx, ast.Load):
+                at = s.node_of(n)
+                if at is None or not s.rd.reachable(at):
+                    continue
+                d = s.deps(n.value, at)
+                if s is sc or EXTRACTED in d or "self.bind_names" in d:
+                    reads.append((s, n, at, d))
+    ctx.require(len(reads) >= 2, "construct_params: no .effective_value / .value reads found")
+    no_lookup = []
+    for s, n, at, d in reads:
+        found = False
+        for kind, x, n2 in s.origins(n.value, at):
+            if kind != "expr":
+                continue
+            for y in ast.walk(x):
+                m = None
+                if isinstance(y, ast.Call) and isinstance(y.func, ast.Attribute) and y.func.attr in ("get", "__getitem__") and y.args:
+                    m = y.func.value
+                elif isinstance(y, ast.Subscript):
+                    m = y.value
+                if m is not None and EXTRACTED in s.deps(m, n2):
+                    found = True
+        if not found:
+            no_lookup.append(f"{unparse(n)} (line {n.lineno})")
+    ctx.check(not no_lookup, f"{f.key}:value_param",
+              f"the bind whose value is read ({no_lookup}) is not looked up in the mapping built from the executing "
+              f"statement's extracted_parameters", "M.get(bindparam, bindparam) with M built from extracted_parameters", f.loc)
+    bad = [f"{unparse(n)} (line {n.lineno})" for s, n, at, d in reads if EXTRACTED not in d]
     ctx.check(not bad, f"{f.key}:value-source",
               f"parameter values are read from the cache-populating bind ({bad}) instead of the executing statement's",
-              f"{n_reads} value reads, all on value_param", f.loc)
-    # resolved_extracted is built by zipping the compiled statement's binds with the executing statement's
-    re_ = [(n, v, st) for n, v, st in name_stores(f.node) if n == "resolved_extracted" and v is not None and not (isinstance(v, ast.Constant))]
-    ctx.require(re_, "construct_params: resolved_extracted binding not found")
-    txt = " ".join(unparse(v) for n, v, st in re_)
-    ctx.check("zip" in txt and "extracted_parameters" in txt, f"{f.key}:resolved_extracted",
-              "resolved_extracted is not zip(original binds, executing statement's extracted_parameters)", "zip(orig, extracted)", f.loc)
+              f"{len(reads)} value reads, all on a bind that is resolved through extracted_parameters", f.loc)
+    # the mapping pairs the compiled statement's binds (self.cache_key[1]) with the executing statement's
+    # extracted_parameters positionally, and maps compiled bind -> executing parameter
+    builders = []
+    for s in scopes:
+        for at, z, k, v, cenv in _map_builders(s):
+            argd = [s.deps(a, at) for a in z.args]
+            if any(EXTRACTED in d or ORIG_BINDS in d for d in argd):
+                builders.append((s, at, z, k, v, cenv, argd))
+    ctx.require(builders, "construct_params: no mapping built from zip(<original binds>, extracted_parameters) found "
+                          "(dict comprehension / dict(generator) / for-loop with M[K] = V, here or in a same-module helper)")
+    bad = []
+    for s, at, z, k, v, cenv, argd in builders:
+        kd, vd = s.deps(k, at, cenv=cenv), s.deps(v, at, cenv=cenv)
+        paired = len(z.args) == 2 and any(ORIG_BINDS in d and EXTRACTED not in d for d in argd) \
+            and any(EXTRACTED in d and ORIG_BINDS not in d for d in argd)
+        if not paired:
+            bad.append(f"`{unparse(z)}` does not pair the compiled statement's binds (self.cache_key[1]) with extracted_parameters")
+        elif not (EXTRACTED in vd and ORIG_BINDS not in vd):
+            bad.append(f"the mapping's values `{unparse(v)}` are not the executing statement's parameters")
+        elif not (ORIG_BINDS in kd and EXTRACTED not in kd):
+            bad.append(f"the mapping's keys `{unparse(k)}` are not derived from the compiled statement's binds")
+    ctx.check(not bad, f"{f.key}:resolved_extracted",
+              "resolved_extracted is not zip(original binds, executing statement's extracted_parameters): " + "; ".join(bad),
+              "zip(orig, extracted) -> {compiled bind: executing parameter}", f.loc)
 
 
 # ---------------------------------------------------------------------- C02-R5: statement-level .params()
@@ -672,6 +816,8 @@ def _as_merge(v: ast.expr) -> Optional[List[ast.expr]]:
 def _merge_winner(ctx, f: FuncInfo):
     """In a collector function: the statement `ACC = merge(ACC, NEW)` where ACC is the accumulator that is stored
     back and NEW derives from a parameter.  -> ('acc' | 'new', loc, text of the merge)."""
+    from ._helpers_rob_c2 import Scope
+    sc = Scope(ctx, f)
     params = set(f.params) - {"self", "cls"}
     found = []
     for st in walk_stmts(f.node.body):
@@ -681,12 +827,26 @@ def _merge_winner(ctx, f: FuncInfo):
         vals = [st.value]
         if isinstance(st.value, ast.Name):
             vals = [v for n, v, s2 in name_stores(f.node) if n == st.value.id and v is not None]
+        # a conditional expression `merge(acc, new) if acc_present else new`: each alternative
+        vals = [x for v in vals for x in ((v.body, v.orelse) if isinstance(v, ast.IfExp) else (v,))]
         for v in vals:
             ops = _as_merge(v)
             if ops is None:
                 continue
-            acc = [i for i, o in enumerate(ops) if unparse(o) == tgt]
-            new = [i for i, o in enumerate(ops) if unparse(o) != tgt and ({n.id for n in ast.walk(o) if isinstance(n, ast.Name)} & params)]
+            # operands are compared with the stored-to place after resolving plain local aliases
+            # (`collected = self._collected_params; ... = new | collected`)
+            res = []
+            for o in ops:
+                r = o
+                if isinstance(o, ast.Name) and sc.node_of(o) is not None:
+                    og = sc.origins(o, sc.node_of(o))
+                    if len(og) == 1 and og[0][0] == "expr":
+                        r = og[0][1]
+                res.append(r)
+            acc = [i for i, o in enumerate(res) if unparse(o) == tgt]
+            new = [i for i, o in enumerate(res) if unparse(o) != tgt and (
+                {n.id for n in ast.walk(o) if isinstance(n, ast.Name)} & params
+                or any(a.startswith("param:") for a in sc.deps(ops[i], sc.node_of(ops[i]))))]
             if len(acc) == 1 and len(new) == 1:
                 found.append(("new" if new[0] > acc[0] else "acc", f"{f.module.path}:{v.lineno}", unparse(v)))
     ctx.require(found, f"{f.key}: no `accumulator = merge(accumulator, new)` statement recognised (| / .union() / {{**a, **b}})")
@@ -797,17 +957,42 @@ def r5(ctx):
     call_pos = []
     collected_visits: Dict[str, FuncInfo] = {}
     short_u = fu.name
+    from ._helpers_rob_c2 import Scope
+    # private helpers that do nothing but hand one of their own parameters to the collector
+    # (`def _maybe_collect(self, stmt): if self._collect_params: self._add_to_params(stmt)`) are collectors too
+    collectors: Dict[str, int] = {short_u: 0}  # method name -> index of the statement argument
     for cc in [ctx.index.cls(k) for k in COMPILERS]:
         for m in cc.methods.values():
-            calls = [c for c in calls_in(m.node) if (call_name(c) or "") == f"self.{short_u}"]
+            if m.name.startswith("visit_") or m.name == short_u:
+                continue
+            calls = [c for c in calls_in(m.node) if (call_name(c) or "") == f"self.{short_u}" and c.args]
             if not calls:
+                continue
+            msc = Scope(ctx, m)
+            idx = set()
+            for c in calls:
+                pa = msc.param_atoms(c.args[0], msc.node_of(c)) if msc.node_of(c) is not None else None
+                if pa is not None and len(pa) == 1 and next(iter(pa)).startswith("param:") and next(iter(pa))[6:] in m.params[1:]:
+                    idx.add(m.params[1:].index(next(iter(pa))[6:]))
+            if len(idx) == 1 and not any((call_name(x) or "").endswith(("._compiler_dispatch", ".process")) for x in calls_in(m.node)):
+                collectors[m.name] = idx.pop()
+    for cc in [ctx.index.cls(k) for k in COMPILERS]:
+        for m in cc.methods.values():
+            calls = [c for c in calls_in(m.node) if (call_name(c) or "").startswith("self.") and (call_name(c) or "")[5:] in collectors]
+            if not calls or m.name in collectors:
                 continue
             ctx.functions_analysed.add(m.key)
             g = ctx.cfg(m)
+            msc = Scope(ctx, m)
             elem = m.params[1] if len(m.params) > 1 else None
             for c in calls:
-                ctx.require(c.args and isinstance(c.args[0], ast.Name), f"{m.key}: {short_u}() argument is not a plain name")
-                if m.name.startswith("visit_") and c.args[0].id == elem:
+                ai = collectors[(call_name(c) or "")[5:]]
+                ctx.require(len(c.args) > ai and isinstance(c.args[ai], ast.Name), f"{m.key}: {short_u}() argument is not a plain name")
+                arg = c.args[ai]
+                at_c = msc.node_of(c)
+                # the statement being visited, possibly through a plain local alias (`stmt = cs`)
+                if m.name.startswith("visit_") and elem is not None and at_c is not None \
+                        and msc.param_atoms(arg, at_c) == frozenset({"param:" + elem}):
                     collected_visits[m.name[len("visit_"):]] = m
                 nodes = g.nodes_containing(c)
                 ctx.require(nodes, f"{m.key}: {short_u}() call not found in the CFG")
@@ -821,7 +1006,7 @@ def r5(ctx):
                             nm = call_name(cl) or ""
                             if cl is c:
                                 continue
-                            if nm.endswith(("._compiler_dispatch", ".process")) or (nm.startswith("self.") and nm != f"self.{short_u}"):
+                            if nm.endswith(("._compiler_dispatch", ".process")) or (nm.startswith("self.") and nm[5:] not in collectors):
                                 return True
                     return False
                 disp = [n.id for n in g.nodes if dispatches(n)]
@@ -829,14 +1014,14 @@ def r5(ctx):
                 early = not any(n in reach_from_disp for n in nodes)
                 late = bool(disp) and not (g.reachable(nodes) & set(disp) - set(nodes))
                 pos = "first" if early else ("last" if late else "middle")
-                call_pos.append((m, c, pos))
+                call_pos.append((m, c, pos, arg.id))
     ctx.require(len(collected_visits) >= 4, f"only {len(collected_visits)} visit methods call {short_u}()")
-    major_u = Counter(p for _, _, p in call_pos if p != "middle").most_common(1)
+    major_u = Counter(p for _, _, p, _ in call_pos if p != "middle").most_common(1)
     major_u = major_u[0][0] if major_u else "middle"
     order_u = {major_u}
-    for m, c, pos in call_pos:
+    for m, c, pos, argname in call_pos:
         ctx.check(pos == major_u, f"{m.key}:{short_u}-position",
-                  f"{m.qualname} calls {short_u}({c.args[0].id}) {'after' if pos != 'first' else 'before'} it dispatches "
+                  f"{m.qualname} calls {short_u}({argname}) {'after' if pos != 'first' else 'before'} it dispatches "
                   f"into child elements while its sibling visit methods call it {major_u}: {fu.qualname} merges "
                   f"`{txt_u}` in calling order, so statements nested inside this construct get the opposite "
                   f"precedence than inside every other construct",
@@ -964,3 +1149,144 @@ R.mutant("benign-fix-fromstatement-collects-params", "orm/context.py", sub(
     '        """\n\n        compile_state = self._compile_state_factory(self, compiler, **kw)\n\n        toplevel = not compiler.stack\n',
     '        """\n\n        if compiler._collect_params:\n            compiler._add_to_params(self)\n\n'
     '        compile_state = self._compile_state_factory(self, compiler, **kw)\n\n        toplevel = not compiler.stack\n'), None)
+
+# ---- robustification round (rob-C2): C02-R2 / C02-R4 read the functions through reaching definitions and
+# same-module helpers instead of local names; breaking mutants for the aspects that had none, and the benign
+# refactoring families (renamed locals, inverted branches, aliases, extracted helpers, comprehension <-> loop)
+ELT = "sql/elements.py"
+_CWC_STORE = "                compiled_cache[key] = compiled_sql\n"
+R.mutant("r2-store-under-other-key", ELT, sub(_CWC_STORE, "                compiled_cache[(dialect, cache_key)] = compiled_sql\n"), "C02-R2")
+R.mutant("r2-key-rebuilt-before-store", ELT, sub(
+    _CWC_STORE, "                key = (dialect, cache_key, bool(schema_translate_map))\n" + _CWC_STORE), "C02-R2")
+R.mutant("r2-key-without-statement-key", ELT, sub(
+    "                dialect,\n                cache_key,\n                tuple(column_keys),\n",
+    "                dialect,\n                tuple(column_keys),\n"), "C02-R2")
+R.mutant("r2-key-drops-schema-translate-map", ELT, sub(
+    "                tuple(column_keys),\n                bool(schema_translate_map),\n", "                tuple(column_keys),\n"), "C02-R2")
+R.mutant("r2-key-column-keys-constant-local", ELT, sub(
+    "            key = (\n                dialect,\n                cache_key,\n                tuple(column_keys),\n",
+    "            ck = ()\n            key = (\n                dialect,\n                cache_key,\n                ck,\n"), "C02-R2")
+_CWC_GUARD_OLD = ("        if compiled_cache is not None and dialect._supports_statement_cache:\n"
+                  "            elem_cache_key = self._generate_cache_key()\n        else:\n            elem_cache_key = None\n")
+_CWC_GUARD_NEW = ("        if compiled_cache is None or not dialect._supports_statement_cache:\n"
+                  "            elem_cache_key = None\n        else:\n            elem_cache_key = self._generate_cache_key()\n")
+_CWC_MISS_OLD = ("            if compiled_sql is None:\n                cache_hit = dialect.CACHE_MISS\n")
+_CWC_MISS_NEW = ("            if compiled_sql is not None:\n                cache_hit = dialect.CACHE_HIT\n"
+                 "            else:\n                cache_hit = dialect.CACHE_MISS\n")
+R.mutant("benign-r2-renamed-key-inverted-branches", ELT, chain(
+    sub(_CWC_GUARD_OLD, _CWC_GUARD_NEW),
+    sub("            key = (\n                dialect,\n", "            lookup_key = (\n                dialect,\n"),
+    sub("            compiled_sql = compiled_cache.get(key)\n", "            compiled_sql = compiled_cache.get(lookup_key)\n"),
+    sub(_CWC_MISS_OLD, _CWC_MISS_NEW),
+    sub(_CWC_STORE + "            else:\n                cache_hit = dialect.CACHE_HIT\n", "                compiled_cache[lookup_key] = compiled_sql\n"),
+), None)
+R.mutant("benign-r2-cache-alias-and-hoisted-key-parts", ELT, chain(
+    sub("            key = (\n                dialect,\n                cache_key,\n                tuple(column_keys),\n                bool(schema_translate_map),\n",
+        "            cache = compiled_cache\n            ck = tuple(column_keys)\n            has_stm = bool(schema_translate_map)\n"
+        "            key = (\n                dialect,\n                cache_key,\n                ck,\n                has_stm,\n"),
+    sub("            compiled_sql = compiled_cache.get(key)\n", "            compiled_sql = cache.get(key)\n"),
+    sub(_CWC_STORE, "                cache[key] = compiled_sql\n"),
+), None)
+R.mutant("benign-r2-key-built-by-helper", ELT, chain(
+    sub("            key = (\n                dialect,\n                cache_key,\n                tuple(column_keys),\n                bool(schema_translate_map),\n                for_executemany,\n            )\n",
+        "            key = self._compiled_cache_lookup_key(\n                dialect, cache_key, column_keys, schema_translate_map, for_executemany\n            )\n"),
+    sub("    def _compile_w_cache(\n",
+        "    def _compiled_cache_lookup_key(\n        self, dialect, cache_key, column_keys, schema_translate_map, for_executemany\n    ):\n"
+        "        return (\n            dialect,\n            cache_key,\n            tuple(column_keys),\n            bool(schema_translate_map),\n            for_executemany,\n        )\n\n"
+        "    def _compile_w_cache(\n"),
+), None)
+R.mutant("benign-r2-inline-keys-try-except-lookup", ELT, chain(
+    sub("            compiled_sql = compiled_cache.get(key)\n\n            if compiled_sql is None:\n",
+        "            try:\n                compiled_sql = compiled_cache[key]\n            except KeyError:\n                compiled_sql = None\n\n            if compiled_sql is None:\n"),
+), None)
+R.mutant("benign-r2-lookup-and-store-in-helper", ELT, chain(
+    sub("            compiled_sql = compiled_cache.get(key)\n\n            if compiled_sql is None:\n                cache_hit = dialect.CACHE_MISS\n"
+        "                compiled_sql = self._compiler(\n                    dialect,\n                    cache_key=elem_cache_key,\n                    column_keys=column_keys,\n"
+        "                    for_executemany=for_executemany,\n                    schema_translate_map=schema_translate_map,\n                    **kw,\n                )\n"
+        "                # ensure that params of the current statement are not\n                # left in the cache\n"
+        "                assert not compiled_sql._collect_params  # type: ignore[attr-defined] # noqa: E501\n"
+        + _CWC_STORE + "            else:\n                cache_hit = dialect.CACHE_HIT\n",
+        "            compiled_sql, cache_hit = self._lookup_or_compile(\n                compiled_cache, key, dialect, elem_cache_key, column_keys,\n"
+        "                for_executemany, schema_translate_map, kw,\n            )\n"),
+    sub("    def _compile_w_cache(\n",
+        "    def _lookup_or_compile(\n        self, cache, cache_lookup_key, dialect, elem_cache_key, column_keys,\n        for_executemany, schema_translate_map, kw,\n    ):\n"
+        "        found = cache.get(cache_lookup_key)\n        if found is not None:\n            return found, dialect.CACHE_HIT\n"
+        "        found = self._compiler(\n            dialect,\n            cache_key=elem_cache_key,\n            column_keys=column_keys,\n"
+        "            for_executemany=for_executemany,\n            schema_translate_map=schema_translate_map,\n            **kw,\n        )\n"
+        "        assert not found._collect_params\n        cache[cache_lookup_key] = found\n        return found, dialect.CACHE_MISS\n\n"
+        "    def _compile_w_cache(\n"),
+), None)
+
+_CP_BLOCK_OLD = (
+    "            if self.cache_key is None:\n                raise exc.CompileError(\n"
+    "                    \"This compiled object has no original cache key; \"\n"
+    "                    \"can't pass extracted_parameters to construct_params\"\n                )\n"
+    "            else:\n                orig_extracted = self.cache_key[1]\n\n"
+    "            ckbm_tuple = self._cache_key_bind_match\n            assert ckbm_tuple is not None\n            ckbm, _ = ckbm_tuple\n"
+    "            resolved_extracted = {\n                bind: extracted\n"
+    "                for b, extracted in zip(orig_extracted, extracted_parameters)\n                for bind in ckbm[b]\n            }\n"
+    "        else:\n            resolved_extracted = None\n")
+R.mutant("r4-map-values-are-the-compiled-binds", CMP, sub(
+    "                bind: extracted\n                for b, extracted in zip(orig_extracted, extracted_parameters)\n",
+    "                bind: b\n                for b, extracted in zip(orig_extracted, extracted_parameters)\n"), "C02-R4")
+R.mutant("r4-zip-compiled-binds-with-themselves", CMP, sub(
+    "                for b, extracted in zip(orig_extracted, extracted_parameters)\n",
+    "                for b, extracted in zip(orig_extracted, orig_extracted)\n"), "C02-R4")
+R.mutant("r4-zip-operands-swapped", CMP, sub(
+    "                for b, extracted in zip(orig_extracted, extracted_parameters)\n",
+    "                for b, extracted in zip(extracted_parameters, orig_extracted)\n"), "C02-R4")
+R.mutant("r4-value-param-not-resolved-in-params-branch", CMP, sub(
+    "                    if resolved_extracted:\n                        value_param = resolved_extracted.get(\n                            bindparam, bindparam\n                        )\n"
+    "                    else:\n                        value_param = bindparam\n",
+    "                    value_param = bindparam\n"), "C02-R4")
+R.mutant("benign-r4-matching-block-in-helper", CMP, chain(
+    sub("        if extracted_parameters:\n            # related the bound parameters collected in the original cache key\n",
+        "        resolved_extracted = self._resolve_extracted_parameters(\n            extracted_parameters\n        )\n        if False:\n"
+        "            # related the bound parameters collected in the original cache key\n"),
+    sub(_CP_BLOCK_OLD, "            pass\n"),
+    sub("    @util.memoized_instancemethod\n    def _get_set_input_sizes_lookup(self):\n",
+        "    def _resolve_extracted_parameters(self, extracted_parameters):\n        if not extracted_parameters:\n            return None\n"
+        "        if self.cache_key is None:\n            raise exc.CompileError(\"no original cache key\")\n"
+        "        orig_extracted = self.cache_key[1]\n        ckbm_tuple = self._cache_key_bind_match\n        assert ckbm_tuple is not None\n"
+        "        ckbm, _ = ckbm_tuple\n        return {\n            bind: extracted\n"
+        "            for b, extracted in zip(orig_extracted, extracted_parameters)\n            for bind in ckbm[b]\n        }\n\n"
+        "    @util.memoized_instancemethod\n    def _get_set_input_sizes_lookup(self):\n"),
+), None)
+R.mutant("benign-r4-map-built-by-loop", CMP, sub(
+    "            resolved_extracted = {\n                bind: extracted\n"
+    "                for b, extracted in zip(orig_extracted, extracted_parameters)\n                for bind in ckbm[b]\n            }\n",
+    "            incoming_by_bind = {}\n            for orig_bind, incoming in zip(orig_extracted, extracted_parameters):\n"
+    "                for compiled_bind in ckbm[orig_bind]:\n                    incoming_by_bind[compiled_bind] = incoming\n"
+    "            resolved_extracted = incoming_by_bind\n"), None)
+R.mutant("benign-r4-value-param-renamed-ternary", CMP, chain(
+    sub("                    if resolved_extracted:\n                        value_param = resolved_extracted.get(\n                            bindparam, bindparam\n                        )\n"
+        "                    else:\n                        value_param = bindparam\n\n"
+        "                    if bindparam.callable:\n                        pd[escaped_name] = value_param.effective_value\n"
+        "                    else:\n                        pd[escaped_name] = value_param.value\n",
+        "                    source = (\n                        resolved_extracted.get(bindparam, bindparam)\n                        if resolved_extracted\n                        else bindparam\n                    )\n"
+        "                    pd[escaped_name] = (\n                        source.effective_value\n                        if bindparam.callable\n                        else source.value\n                    )\n"),
+), None)
+R.mutant("benign-r4-value-read-in-helper", CMP, chain(
+    sub("                if resolved_extracted:\n                    value_param = resolved_extracted.get(bindparam, bindparam)\n"
+        "                else:\n                    value_param = bindparam\n\n"
+        "                if bindparam.callable:\n                    pd[escaped_name] = value_param.effective_value\n"
+        "                else:\n                    pd[escaped_name] = value_param.value\n",
+        "                pd[escaped_name] = self._current_value_of(\n                    bindparam, resolved_extracted\n                )\n"),
+    sub("    @util.memoized_instancemethod\n    def _get_set_input_sizes_lookup(self):\n",
+        "    def _current_value_of(self, compiled_bind, incoming_by_bind):\n"
+        "        src = compiled_bind\n        if incoming_by_bind:\n            src = incoming_by_bind.get(compiled_bind, compiled_bind)\n"
+        "        if compiled_bind.callable:\n            return src.effective_value\n        return src.value\n\n"
+        "    @util.memoized_instancemethod\n    def _get_set_input_sizes_lookup(self):\n"),
+), None)
+R.mutant("r4-value-read-in-helper-ignores-incoming", CMP, chain(
+    sub("                if resolved_extracted:\n                    value_param = resolved_extracted.get(bindparam, bindparam)\n"
+        "                else:\n                    value_param = bindparam\n\n"
+        "                if bindparam.callable:\n                    pd[escaped_name] = value_param.effective_value\n"
+        "                else:\n                    pd[escaped_name] = value_param.value\n",
+        "                pd[escaped_name] = self._current_value_of(\n                    bindparam, resolved_extracted\n                )\n"),
+    sub("    @util.memoized_instancemethod\n    def _get_set_input_sizes_lookup(self):\n",
+        "    def _current_value_of(self, compiled_bind, incoming_by_bind):\n"
+        "        src = compiled_bind\n"
+        "        if compiled_bind.callable:\n            return src.effective_value\n        return src.value\n\n"
+        "    @util.memoized_instancemethod\n    def _get_set_input_sizes_lookup(self):\n"),
+), "C02-R4")
